@@ -17,6 +17,7 @@ const (
 	tWrong    = -2 // reference to an object of the wrong type
 	tNull     = -3 // the null object
 	tRoot     = -4 // outline: the outlines root dictionary
+	tDirect   = -5 // a direct object of the wrong type (an integer) where a reference is expected
 )
 
 type relShape struct {
@@ -58,6 +59,8 @@ func (b *sb) ref(t int) string {
 		return ref(b.wrong)
 	case t == tNull:
 		return "null"
+	case t == tDirect:
+		return "7"
 	}
 	return ""
 }
